@@ -23,6 +23,22 @@ variable {Rec : Type}
 survives every step of the pass; every `outlist` entry for `j` was chosen by the tree from a
 `last_comms` reading related to the counter it carries) are in Lemmas/Tcp.lean. -/
 
+/-- the small-step model is anchored to the sequential model of C15 (whose decision tree, bookkeeping and
+device-manager methods are generated from the source and which is compared with the real loop):
+with no listener step inside it, the pass in small steps *is* `outIter`, and its `outlist` is `decidePhase`. -/
+theorem passSmall_nil (s : TState Rec) (now : Int) (snap : Msg Rec) (outcome : Nat → Nat × Int) :
+    let r := passSmall s now (fun _ => s.queue.isEmpty) snap outcome (fun _ => [])
+    (r.1, r.2.1) = outIter s now snap outcome ∧ r.2.2 = decidePhase s.cfg s.self now s.queue.isEmpty s.peers := by
+  have hd := decideFold_nil s.cfg s.self now s.queue.isEmpty s.peers [] []
+  have hid : (decidePhase s.cfg s.self now s.queue.isEmpty s.peers).map (fun it => (it.1 + 0, it.2))
+      = decidePhase s.cfg s.self now s.queue.isEmpty s.peers := by
+    simp
+  simp only [List.length_nil, List.nil_append] at hd
+  rw [hid] at hd
+  simp only [passSmall, passSmallG, List.range_eq_range', hd, sendSmall_nil, applyInc, List.foldl_nil, outIter, sendPhase]
+  exact ⟨trivial, trivial⟩
+
+
 /-- **`reset_survives_pass`**: for every interleaving — if a RESET from device `j` was handled at any
 point of the pass (its reset counter moved), then at the end of the pass either `last_comms j = 0`
 (so the following passes can only choose RESYNC, see `reset_forces_resync`), or a message to `j` was
